@@ -255,6 +255,10 @@ SWEEP = ["reusable/test_page_allocator.cpp",
 
 # name anchors (validated by tools/rename_sweep.py; a vanished name is exit 2, see core.check_anchor_names)
 ANCHORS = {
+    '_allocate_page_num': ['^babylon::CountingPageAllocator(<|$)', '^babylon::PageHeap(<|$)'],
+    '_object_creator': ['^babylon::ObjectPool(<|$)'],
+    '_object_recycler': ['^babylon::ObjectPool(<|$)'],
+    '_pool': ['^babylon::ObjectPool(<|$)'],
     'pop_n': ['^babylon::ConcurrentBoundedQueue(<|$)'],
     'push_n': ['^babylon::ConcurrentBoundedQueue(<|$)'],
     'try_pop_n': ['^babylon::ConcurrentBoundedQueue(<|$)'],
